@@ -39,7 +39,9 @@ D1 == Leaves \cup {Seq2(x, y) : x \in Leaves, y \in Leaves} \cup {Cap(x) : x \in
 \* depth two: in the quick scope one child of a pair is a leaf
 Pairs == IF Big THEN D1 \X D1 ELSE {pr \in D1 \X D1 : pr[1] \in Leaves \/ pr[2] \in Leaves}
 D2 == D1 \cup {Seq2(pr[1], pr[2]) : pr \in Pairs} \cup {Cap(x) : x \in D1} \cup {Allot2(pr[1], pr[2]) : pr \in Pairs}
-Srcs == D2 \cup {Cap(x) : x \in D2}
+\* a cap around a structured source next to a leaf, in both orders (what a scope left behind matters to its siblings)
+D3 == {Seq2(Cap(x), y) : x \in D1 \ Leaves, y \in Leaves} \cup {Seq2(y, Cap(x)) : x \in D1 \ Leaves, y \in Leaves}
+Srcs == D2 \cup {Cap(x) : x \in D2} \cup D3
 Dst == [k |-> "acct", e |-> Acc("x")]
 ShapeProgs == {[vars |-> <<>>, stmts |-> <<[k |-> "send", all |-> al, sent |-> IF al THEN [k |-> "asset", v |-> A] ELSE Mon(20), src |-> s, dst |-> Dst]>>] :
                   al \in BOOLEAN, s \in Srcs}
@@ -110,7 +112,13 @@ AllotProgs == {[vars |-> <<D("portion", "p")>>,
          \cup {[vars |-> <<D("portion", "p")>>,
                 stmts |-> <<Send(FALSE, Mon(20), LeafL("a"), [k |-> "allot", it |-> [i \in 1..Len(ps) |-> [p |-> ps[i], to |-> SrcOfIdx(i)]]])>>] : ps \in AllotSeqs}
 
-Progs == IF Scope = "names" THEN NameProgs \cup PosProgs \cup OrderProgs \cup AllotProgs ELSE ShapeProgs \cup NameProgs \cup PosProgs \cup OrderProgs \cup AllotProgs
+\* ---- a function that only exists as an origin, called as a statement (alone, and next to a proper use of the same name)
+MisplacedProgs ==
+  {[vars |-> ds, stmts |-> <<[k |-> "call", name |-> fn, args |-> args], Send(FALSE, Mon(20), LeafL("a"), Dst)>>] :
+      ds \in {<<>>, <<D("account", "acc"), BalDecl>>, <<D("account", "acc"), KeyDecl>>},
+      fn \in {"balance", "meta"}, args \in {<<Acc("a"), AstE(A)>>, <<Acc("a"), Str_("key")>>}}
+
+Progs == IF Scope = "names" THEN NameProgs \cup PosProgs \cup OrderProgs \cup AllotProgs \cup MisplacedProgs ELSE ShapeProgs \cup NameProgs \cup PosProgs \cup OrderProgs \cup AllotProgs \cup MisplacedProgs
 VARIABLES phase, prog
 vars == <<phase, prog>>
 Init == phase = "pick" /\ prog = [vars |-> <<>>, stmts |-> <<>>]
